@@ -186,6 +186,28 @@ def run_case(case):
                 bad("%s raises %s on a permuted batch" % (mm, type(ex).__name__), "permutation", "%s %s" % (str(ex)[:200], desc0))
                 continue
             compare(mm, idx, got, "permutation")
+    # the caller's batch buffer refilled in place between calls (same array object, other rows), every method first on the one
+    # content, then on the other: the output follows the rows that are in the buffer at the time of the call
+    if kind in ("reg", "clf", "cluster", "poly", "nmf", "recip"):
+        rev = list(range(m))[::-1]
+        buf = numpy.array(P, copy=True)
+        ybuf = None if yP is None else numpy.array(yP, copy=True)
+        for mm in methods:
+            try:
+                _call(est, mm, buf, kind, ybuf)
+            except Exception:
+                pass
+        buf[...] = P[rev]
+        if ybuf is not None:
+            ybuf[...] = yP[rev]
+        for mm in methods:
+            cnt += 1
+            try:
+                got = _call(est, mm, buf, kind, ybuf)
+            except Exception as ex:
+                bad("%s raises %s on a refilled buffer" % (mm, type(ex).__name__), "batch buffer refilled in place", "%s %s" % (str(ex)[:200], desc0))
+                continue
+            compare(mm, rev, got, "batch buffer refilled in place")
     # the same batch (same values) stored behind other memory layouts: a row is its values, not where they are kept
     if kind in ("reg", "clf", "cluster", "poly", "nmf", "recip"):
         for lname, Pl in K.layouts(P)[1:]:
